@@ -153,7 +153,7 @@ def pick_range(rng, ranges):
 def make_fault(rng, data, ranges):
     """Returns (mutated bytes, fault description dict)."""
     n = len(data)
-    kind = rng.choices(['field', 'field', 'field', 'field', 'trunc', 'random', 'swap', 'zero-sector'], [40, 20, 10, 10, 8, 6, 3, 3])[0]
+    kind = rng.choices(['field', 'field', 'field', 'field', 'trunc', 'random', 'swap', 'zero-sector', 'alias'], [40, 20, 10, 10, 8, 6, 3, 3, 6])[0]
     b = bytearray(data)
     if kind == 'trunc':
         r = pick_range(rng, ranges) if rng.random() < 0.7 else rng.choice(ranges)
@@ -174,6 +174,19 @@ def make_fault(rng, data, ranges):
             return bytes(b), {'fault': 'swap', 'structure': r1[0] + '<->' + r2[0]}
         b[s1:s1 + 2048] = b[s2:s2 + 2048]
         return bytes(b), {'fault': 'dup-sector', 'structure': r2[0] + '->' + r1[0]}
+    if kind == 'alias':
+        # one sector of a structure copied over another sector of the same kind of structure:
+        # directories that contain themselves, file entries shared by two names, cycles
+        kinds = sorted({r[0] for r in ranges})
+        rng.shuffle(kinds)
+        for k in kinds:
+            same = [r for r in ranges if r[0] == k]
+            secs = sorted({sec for r in same for sec in range(r[1] // 2048, (r[2] + 2047) // 2048)})
+            if len(secs) >= 2:
+                a, c = rng.sample(secs, 2)
+                b[c * 2048:c * 2048 + 2048] = b[a * 2048:a * 2048 + 2048]
+                return bytes(b), {'fault': 'alias', 'structure': k, 'from_sector': a, 'to_sector': c}
+        kind = 'zero-sector'
     if kind == 'zero-sector':
         r = pick_range(rng, ranges) if rng.random() < 0.7 else rng.choice(ranges)
         s = ((rng.randint(r[1], r[2] - 1)) // 2048) * 2048
